@@ -159,7 +159,9 @@ func execC13Sub(s c13Sub) *ev.Failure {
 				time.AfterFunc(late, func() { st.feed(refFrame(frameContent([]KV{kv("_opid", opid)}, []byte("late")))) })
 			}
 		case "otherop":
-			st.onFlush = func([]byte) { st.feed(refFrame(frameContent([]KV{kv("_opid", "4611686018427387999")}, []byte("other")))) }
+			st.onFlush = func([]byte) {
+				st.feed(refFrame(frameContent([]KV{kv("_opid", "4611686018427387999")}, []byte("other"))))
+			}
 		}
 		var f *ev.Failure
 		if s.Transport == "adapter.oneway" {
